@@ -391,7 +391,7 @@ def run_part(ctx):
                      "(Header call history) | (object content, physical layout or round-trip option vector); distinct by that tuple; "
                      "evaluations = API calls after which every accessor is compared + checksums compared")
         for g in gens:
-            for c in g.samples[:1]:
+            for c in g.samples[-1:]:
                 d = {"ext": True, "what": describe(c)}
                 if "steps" in c:
                     d["expected_last"] = c["steps"][-1]["exp"]
